@@ -94,17 +94,24 @@ def aliasLine (line : String) : Option String :=
       let c := k.count q
       pure s!"ok {if c then 1 else 0} {if c then toString (k.idxOf q) else "-"} {showState k.toV}"
   | ["khist", ops] => do
-      -- object-level history: `+o`/`?o` append (strict / permissive), `+~` auto-append, `p` pop, `c` clear, `r` relabel-as-integers
+      -- object-level history: `+o`/`?o` append (strict / permissive), `+~` auto-append, `p` pop, `c` clear,
+      -- `r` relabel-as-integers, `xo` remove, `R:k>v|k>v…` relabel (`R:` alone = empty mapping)
       let parsed ← (csv ops).mapM fun (t : String) =>
         match t.toList with
-        | ['p'] => some KState.KOp.pop
-        | ['c'] => some KState.KOp.clear
-        | ['r'] => some KState.KOp.relabelInts
-        | '+' :: '~' :: [] => some (KState.KOp.append none false)
-        | '+' :: r => (parsePyKeyChars r).map fun o => KState.KOp.append (some o) false
-        | '?' :: r => (parsePyKeyChars r).map fun o => KState.KOp.append (some o) true
+        | ['p'] => some (KState.KOp2.base .pop)
+        | ['c'] => some (KState.KOp2.base .clear)
+        | ['r'] => some (KState.KOp2.base .relabelInts)
+        | '+' :: '~' :: [] => some (KState.KOp2.base (.append none false))
+        | '+' :: r => (parsePyKeyChars r).map fun o => KState.KOp2.base (.append (some o) false)
+        | '?' :: r => (parsePyKeyChars r).map fun o => KState.KOp2.base (.append (some o) true)
+        | 'x' :: r => (parsePyKeyChars r).map KState.KOp2.remove
+        | 'R' :: ':' :: r =>
+          if r.isEmpty then some (KState.KOp2.relabel []) else
+          ((String.ofList r).splitOn "|").mapM (fun (kv : String) => match kv.splitOn ">" with
+            | [a, b] => do let a ← parsePyKey? a; let b ← parsePyKey? b; pure (a, b)
+            | _ => none) |>.map KState.KOp2.relabel
         | _ => none
-      let (k, flags) := parsed.foldl (fun (acc : KState × List Bool) op => ((acc.1.step op).1, acc.2 ++ [(acc.1.step op).2]))
+      let (k, flags) := parsed.foldl (fun (acc : KState × List Bool) op => ((acc.1.step2 op).1, acc.2 ++ [(acc.1.step2 op).2]))
         ({ i2l := [], l2i := [], stop := 0 }, [])
       let objs := (List.range k.stop).map fun i => showLabel (PyKey.canon (k.labelAt i))
       pure s!"ok {String.intercalate "" (flags.map fun b => if b then "1" else "0")} {showState k.toV} {String.intercalate "," objs}"
